@@ -983,6 +983,16 @@ func (e *Exec) contractLoopInvs(fr *Frame, h *ssa.BasicBlock, li *loopInfo, phis
 			continue
 		}
 		e.usedLoopKeys[key] = true
+		for i, cl := range c.Decreases[key] {
+			cl := cl
+			d := &loopDecr{name: clauseName(cl, i), eval: func(v map[*ssa.Phi]Value, st *State) *Term {
+				en := e.newEnv(fr, st, e.entry)
+				en.phis = v
+				en.point = h.Instrs[len(h.Instrs)-1]
+				return en.intTerm(cl.Expr)
+			}}
+			li.decrPending = append(li.decrPending, d)
+		}
 		for i, cl := range cls {
 			cl := cl
 			add(clauseName(cl, i), false, func(v map[*ssa.Phi]Value, st *State) *Term {
